@@ -47,15 +47,10 @@ Proof. destruct positive; discriminate. Qed.
 
 (* ---------- simplifyWord ---------- *)
 
-(* the guards under which the :Mword -> == word rewrite is correct; they are
-   conditions on the pattern and on the value, the Go code checks none of them *)
-Definition word_guards (e : env) (v : str) (fe positive : bool) (pat : str) : Prop :=
-  (* G1: the literal is compared as a string *)
-  (needs_quotes pat = true \/ try_parse_number pat = None) /\
-  (* G2: the bare ${V:Mpat} is true when the word matches, i.e. pat is not a number zero *)
-  (fe = false -> positive = true -> truthy pat false = true) /\
-  (* G3: with :N the value is neither empty nor (in the bare form) a number zero *)
-  (positive = false -> forall s, e v = Some s -> s <> [] /\ (fe = false -> truthy s false = true)).
+(* the one guard the Go code still lacks: with :N the value is neither empty
+   nor (in the bare form) a number zero *)
+Definition word_N_guard (e : env) (v : str) (fe positive : bool) : Prop :=
+  positive = false -> forall s, e v = Some s -> s <> [] /\ (fe = false -> truthy s false = true).
 
 Theorem word_rewrite_partial cx v mods fe neg rw e :
   In rw (simplify_word cx v mods fe neg) ->
@@ -64,48 +59,25 @@ Theorem word_rewrite_partial cx v mods fe neg rw e :
     last mods [] = (if positive then 77 else 78) :: pat /\
     ((is_defined (cx_seen_prefs cx) (cx_var cx v) = true -> e v <> None) ->
      (forall d s, eval_expr e v (map classify_mod (removelast mods)) = Some (d, s) -> wordlike s) ->
-     word_guards e v fe positive pat ->
+     word_N_guard e v fe positive ->
      preserves e f t).
 Proof.
   intros Hin. destruct (simplify_word_inv _ _ _ _ _ _ Hin)
-    as (pat & positive & Hlast & Hne & Hpl & Hpne & Hpw & _ & HNdef & HNpre & _ & Hf & Ht).
-  do 4 eexists. split; [exact Hf|]. split; [exact Ht|]. split; [exact Hlast|].
-  intros Hdef Hword (G1 & G2 & G3).
-  set (pms := map classify_mod (removelast mods)) in *.
-  destruct (eval_expr e v pms) as [[d s]|] eqn:Hev.
-  - apply word_tree_preserves with (d := d) (s := s); auto.
-    + apply (Hword d s eq_refl).
-    + intros Hu _. eapply prefix_defined; try eassumption. apply MN_not_U.
-    + intros Hpos. specialize (HNdef Hpos). specialize (HNpre Hpos).
-      subst pms. rewrite HNpre in Hev. unfold eval_expr in Hev. cbn [map apply_mods] in Hev.
-      destruct (e v) as [x|] eqn:Ev; [|exfalso; apply (Hdef HNdef); reflexivity].
-      injection Hev as <- <-. apply G3; auto.
-  - intros r Hr. rewrite from_shape_outside in Hr; [discriminate|].
-    apply eval_expr_snoc_none. exact Hev.
-Qed.
-
-(* ---------- simplifyYesNo ---------- *)
-
-Theorem yesno_rewrite_partial cx v mods fe neg rw e :
-  In rw (fst (simplify_yesno cx v mods fe neg)) ->
-  exists f t pat (positive : bool),
-    rw_from_c rw = Some f /\ rw_to_c rw = Some t /\
-    last mods [] = (if positive then 77 else 78) :: pat /\
-    ((is_defined (cx_seen_prefs cx) (cx_var cx v) = true -> e v <> None) ->
-     (forall d s, eval_expr e v (map classify_mod (removelast mods)) = Some (d, s) -> wordlike s) ->
-     (* with :N the value is neither empty nor (in the bare form) a number zero *)
-     (positive = false -> forall s, e v = Some s -> s <> [] /\ (fe = false -> truthy s false = true)) ->
-     preserves e f t).
-Proof.
-  intros Hin. destruct (simplify_yesno_inv _ _ _ _ _ _ Hin)
-    as (pat & ls & positive & Hlast & Hne & Hyn & Hlne & _ & HNdef & HNpre & _ & Hf & Ht).
+    as (pat & positive & Hlast & Hne & Hpl & Hpne & Hpw & _ & HNdef & HNpre & Hnum & Hlit & _ & Hf & Ht).
   do 4 eexists. split; [exact Hf|]. split; [exact Ht|]. split; [exact Hlast|].
   intros Hdef Hword G3.
   set (pms := map classify_mod (removelast mods)) in *.
   destruct (eval_expr e v pms) as [[d s]|] eqn:Hev.
-  - apply yesno_tree_preserves with (d := d) (s := s); auto.
+  - apply word_tree_preserves with (d := d) (s := s); auto.
+    + (* the literal is compared as a string: quoted, or not a number *)
+      destruct (numeric_head pat) eqn:En.
+      * left. unfold needs_quotes. rewrite En. rewrite !orb_true_r. reflexivity.
+      * right. apply numeric_head_false_not_number; assumption.
     + apply (Hword d s eq_refl).
     + intros Hu _. eapply prefix_defined; try eassumption. apply MN_not_U.
+    + (* the bare form is only rewritten for a literal that is not a number *)
+      intros Hfe _. unfold truthy.
+      rewrite (numeric_head_false_not_number pat (Hnum Hfe) Hlit Hpne). destruct pat; [congruence|reflexivity].
     + intros Hpos. specialize (HNdef Hpos). specialize (HNpre Hpos).
       subst pms. rewrite HNpre in Hev. unfold eval_expr in Hev. cbn [map apply_mods] in Hev.
       destruct (e v) as [x|] eqn:Ev; [|exfalso; apply (Hdef HNdef); reflexivity].
@@ -114,9 +86,9 @@ Proof.
     apply eval_expr_snoc_none. exact Hev.
 Qed.
 
-(* the positive (:M) yes/no rewrite needs no guard at all *)
-Corollary yesno_rewrite_M_preserves cx v mods fe neg rw e :
-  In rw (fst (simplify_yesno cx v mods fe neg)) ->
+(* the :M form needs no guard: it holds for every admitted value *)
+Corollary word_rewrite_M_preserves cx v mods fe neg rw e :
+  In rw (simplify_word cx v mods fe neg) ->
   (exists pat, last mods [] = 77 :: pat) ->
   exists f t, rw_from_c rw = Some f /\ rw_to_c rw = Some t /\
     ((is_defined (cx_seen_prefs cx) (cx_var cx v) = true -> e v <> None) ->
@@ -124,9 +96,40 @@ Corollary yesno_rewrite_M_preserves cx v mods fe neg rw e :
      preserves e f t).
 Proof.
   intros Hin (pat0 & Hl0).
-  destruct (yesno_rewrite_partial cx v mods fe neg rw e Hin) as (f & t & pat & positive & Hf & Ht & Hl & H).
+  destruct (word_rewrite_partial cx v mods fe neg rw e Hin) as (f & t & pat & positive & Hf & Ht & Hl & H).
   exists f, t. split; [exact Hf|]. split; [exact Ht|]. intros Hdef Hw. apply H; auto.
   intros Hpos. subst positive. rewrite Hl0 in Hl. discriminate.
+Qed.
+
+(* ---------- simplifyYesNo ---------- *)
+
+(* no guard is left: :N is only rewritten in the empty() form of a variable
+   that is declared NonemptyIfDefined, and that declaration is taken as true *)
+Theorem yesno_rewrite_preserves cx v mods fe neg rw e :
+  In rw (fst (simplify_yesno cx v mods fe neg)) ->
+  exists f t,
+    rw_from_c rw = Some f /\ rw_to_c rw = Some t /\
+    ((is_defined (cx_seen_prefs cx) (cx_var cx v) = true -> e v <> None) ->
+     (vi_nonempty_if_defined (cx_var cx v) = true -> e v <> Some []) ->
+     (forall d s, eval_expr e v (map classify_mod (removelast mods)) = Some (d, s) -> wordlike s) ->
+     preserves e f t).
+Proof.
+  intros Hin. destruct (simplify_yesno_inv _ _ _ _ _ _ Hin)
+    as (pat & ls & positive & Hlast & Hne & Hyn & Hlne & _ & HN & HNpre & _ & Hf & Ht).
+  do 2 eexists. split; [exact Hf|]. split; [exact Ht|].
+  intros Hdef Hnonempty Hword.
+  set (pms := map classify_mod (removelast mods)) in *.
+  destruct (eval_expr e v pms) as [[d s]|] eqn:Hev.
+  - apply yesno_tree_preserves with (d := d) (s := s); auto.
+    + apply (Hword d s eq_refl).
+    + intros Hu _. eapply prefix_defined; try eassumption. apply MN_not_U.
+    + intros Hpos. destruct (HN Hpos) as (HNdef & Hfe & Hnz). specialize (HNpre Hpos).
+      subst pms. rewrite HNpre in Hev. unfold eval_expr in Hev. cbn [map apply_mods] in Hev.
+      destruct (e v) as [x|] eqn:Ev; [|exfalso; apply (Hdef HNdef); reflexivity].
+      injection Hev as <- <-. split; [|congruence].
+      intros ->. apply (Hnonempty Hnz). reflexivity.
+  - intros r Hr. rewrite from_shape_outside in Hr; [discriminate|].
+    apply eval_expr_snoc_none. exact Hev.
 Qed.
 
 (* ---------- simplifyMatch ---------- *)
@@ -153,28 +156,27 @@ Qed.
 
 (* ---------- checkAnd ---------- *)
 
-Theorem and_rewrite_partial cs rw e :
+Theorem and_rewrite_equivalent cs rw e :
   In rw (check_and cs) ->
   exists v ms, cs = [MDefined v; MNot (MEmpty v ms)] /\
     rw_from rw = s_defined_lp ++ v ++ s_rp_and /\ rw_to rw = [] /\
-    (forallb keeps_empty (map classify_mod ms) = true ->
-     equivalent e (CAnd (CDefined v) (CNot (CEmpty v (map classify_mod ms))))
-                  (CNot (CEmpty v (map classify_mod ms)))).
+    equivalent e (CAnd (CDefined v) (CNot (CEmpty v (map classify_mod ms))))
+                 (CNot (CEmpty v (map classify_mod ms))).
 Proof.
-  intros Hin. destruct (check_and_inv _ _ Hin) as (v & ms & Hcs & _ & Hf & Ht).
-  exists v, ms. repeat split; auto. apply and_tree_equivalent_fragment.
+  intros Hin. destruct (check_and_inv _ _ Hin) as (v & ms & Hcs & _ & Hf & Ht & HU).
+  exists v, ms. repeat split; auto. apply and_tree_equivalent_fragment. apply no_U_keeps_empty. exact HU.
 Qed.
 
-(* ================= the unguarded statements are false ================= *)
+(* ================= the one unguarded statement that is still false ================= *)
 
 (* a single-valued, always defined variable V; bsd.prefs.mk included *)
 Definition ex_var : str := [86].
 Definition ex_cx : ctx :=
-  mkctx (fun _ => mkvarinfo true false false true true false true) true (fun _ => MmnNo).
+  mkctx (fun _ => mkvarinfo true false false true true false true false) true (fun _ => MmnNo).
 Definition ex_cx_undef : ctx :=
-  mkctx (fun _ => mkvarinfo true false false false false false true) true (fun _ => MmnNo).
+  mkctx (fun _ => mkvarinfo true false false false false false true false) true (fun _ => MmnNo).
 
-(* simplifyWord without the guards G1-G3 *)
+(* simplifyWord without the :N guard *)
 Definition word_full : Prop :=
   forall cx v mods fe neg rw e f t,
     In rw (simplify_word cx v mods fe neg) ->
@@ -229,18 +231,6 @@ Lemma word_cex_N_empty :
   counterexample (simplify_word ex_cx ex_var ex_N_mods false true) (env1 ex_var (Some [])).
 Proof. try unfold counterexample. apply rewrite_values_sound. vm_compute. reflexivity. Qed.
 
-(* ${V:M1e1} -> ${V} == 1e1, V = "10" *)
-Definition ex_1e1_mods : list str := [[77; 49; 101; 49]].
-Lemma word_cex_numeric_literal :
-  counterexample (simplify_word ex_cx ex_var ex_1e1_mods false true) (env1 ex_var (Some [49; 48])).
-Proof. try unfold counterexample. apply rewrite_values_sound. vm_compute. reflexivity. Qed.
-
-(* ${V:M0} -> ${V} == "0", V = "0" *)
-Definition ex_0_mods : list str := [[77; 48]].
-Lemma word_cex_bare_zero :
-  counterexample (simplify_word ex_cx ex_var ex_0_mods false true) (env1 ex_var (Some [48])).
-Proof. try unfold counterexample. apply rewrite_values_sound. vm_compute. reflexivity. Qed.
-
 Lemma wordlike_ex_value (x : option str) (Hx : match x with Some s => wordlike s | None => True end) mods :
   mods = [] -> forall d s, eval_expr (env1 ex_var x) ex_var (map classify_mod mods) = Some (d, s) -> wordlike s.
 Proof.
@@ -248,98 +238,34 @@ Proof.
     [exact Hx|exact wordlike_nil].
 Qed.
 
-Lemma refute_word (mods : list str) (fe neg : bool) (x : str) :
-  removelast mods = [] -> wordlike x ->
-  counterexample (simplify_word ex_cx ex_var mods fe neg) (env1 ex_var (Some x)) -> ~ word_full.
-Proof.
-  intros Hpre Hx (rw & f & t & Hl & Hf & Ht & Ef & Et) H.
-  apply (not_preserves _ _ _ Ef Et).
-  apply (H ex_cx ex_var mods fe neg rw); auto.
-  - rewrite Hl. left. reflexivity.
-  - intros _. unfold env1. rewrite str_eqb_refl. discriminate.
-  - rewrite Hpre. apply (wordlike_ex_value (Some x) Hx []). reflexivity.
-Qed.
-
 Theorem word_full_refuted : ~ word_full.
-Proof. apply (refute_word ex_N_mods false true []); [reflexivity|reflexivity|exact word_cex_N_empty]. Qed.
-
-Theorem word_full_refuted_numeric_literal : ~ word_full.
-Proof. apply (refute_word ex_1e1_mods false true [49; 48]); [reflexivity|reflexivity|exact word_cex_numeric_literal]. Qed.
-
-Theorem word_full_refuted_bare_zero : ~ word_full.
-Proof. apply (refute_word ex_0_mods false true [48]); [reflexivity|reflexivity|exact word_cex_bare_zero]. Qed.
-
-(* simplifyYesNo without the :N guard *)
-Definition yesno_full : Prop :=
-  forall cx v mods fe neg rw e f t,
-    In rw (fst (simplify_yesno cx v mods fe neg)) ->
-    rw_from_c rw = Some f -> rw_to_c rw = Some t ->
-    (is_defined (cx_seen_prefs cx) (cx_var cx v) = true -> e v <> None) ->
-    (forall d s, eval_expr e v (map classify_mod (removelast mods)) = Some (d, s) -> wordlike s) ->
-    preserves e f t.
-
-(* ${V:N[yY][eE][sS]} -> ${V:tl} != yes, V = "" *)
-Definition ex_Nyes_mods : list str := [[78; 91; 121; 89; 93; 91; 101; 69; 93; 91; 115; 83; 93]].
-Lemma yesno_cex_N_empty :
-  counterexample (fst (simplify_yesno ex_cx ex_var ex_Nyes_mods false true)) (env1 ex_var (Some [])).
-Proof. try unfold counterexample. apply rewrite_values_sound. vm_compute. reflexivity. Qed.
-
-Theorem yesno_full_refuted : ~ yesno_full.
 Proof.
-  destruct yesno_cex_N_empty as (rw & f & t & Hl & Hf & Ht & Ef & Et). intros H.
+  destruct word_cex_N_empty as (rw & f & t & Hl & Hf & Ht & Ef & Et). intros H.
   apply (not_preserves _ _ _ Ef Et).
-  apply (H ex_cx ex_var ex_Nyes_mods false true rw); auto.
+  apply (H ex_cx ex_var ex_N_mods false true rw); auto.
   - rewrite Hl. left. reflexivity.
   - intros _. unfold env1. rewrite str_eqb_refl. discriminate.
   - apply (wordlike_ex_value (Some []) wordlike_nil []). reflexivity.
-Qed.
-
-(* checkAnd without looking at the modifiers *)
-Definition and_full : Prop :=
-  forall cs rw e v ms, In rw (check_and cs) -> cs = [MDefined v; MNot (MEmpty v ms)] ->
-    equivalent e (CAnd (CDefined v) (CNot (CEmpty v (map classify_mod ms))))
-                 (CNot (CEmpty v (map classify_mod ms))).
-
-(* defined(V) && !empty(V:Ux) -> !empty(V:Ux), V undefined *)
-Definition ex_Ux_mods : list str := [[85; 120]].
-Definition ex_and_from : cond := CAnd (CDefined ex_var) (CNot (CEmpty ex_var (map classify_mod ex_Ux_mods))).
-Definition ex_and_to : cond := CNot (CEmpty ex_var (map classify_mod ex_Ux_mods)).
-Lemma and_cex : is_tri (eval (env1 ex_var None) ex_and_from) TFalse && is_tri (eval (env1 ex_var None) ex_and_to) TTrue = true.
-Proof. vm_compute. reflexivity. Qed.
-
-Theorem and_full_refuted : ~ and_full.
-Proof.
-  intros H.
-  assert (Hin : In (mkrw KAnd (s_defined_lp ++ ex_var ++ s_rp_and) [] None None)
-                   (check_and [MDefined ex_var; MNot (MEmpty ex_var ex_Ux_mods)])).
-  { left. reflexivity. }
-  specialize (H _ _ (env1 ex_var None) ex_var ex_Ux_mods Hin eq_refl). unfold equivalent in H.
-  pose proof and_cex as C. apply andb_true_iff in C as [C1 C2]. apply is_tri_sound in C1, C2.
-  fold ex_and_from in H. fold ex_and_to in H. rewrite C1, C2 in H. discriminate.
 Qed.
 
 (* simplifyMatch: the promise taken from mayMatchNumber is needed.
    !empty(V:M0x[0-9].) -> ${V:M0x[0-9].} when mayMatchNumber says "no", V = "0x0." :
    strtod reads 0x0. as a hexadecimal floating constant with value zero *)
 Definition ex_hex_mods : list str := [[77; 48; 120; 91; 48; 45; 57; 93; 46]].
+Definition ex_hex_line : str := [].
 Example match_needs_mmn_promise :
   exists rw f t, simplify_match ex_cx ex_var ex_hex_mods true true = [rw] /\
     rw_from_c rw = Some f /\ rw_to_c rw = Some t /\
     eval (env1 ex_var (Some [48; 120; 48; 46])) f = Some TTrue /\
     eval (env1 ex_var (Some [48; 120; 48; 46])) t = Some TFalse.
-Proof. try unfold counterexample. apply rewrite_values_sound. vm_compute. reflexivity. Qed.
+Proof. apply rewrite_values_sound. vm_compute. reflexivity. Qed.
 
 (* ================= the hypotheses are satisfiable ================= *)
 
-(* !empty(V:Malpha) -> ${V} == alpha : guards hold, values agree for V = alpha, beta, "" *)
 Definition ex_alpha : str := [97; 108; 112; 104; 97].
 Definition ex_Malpha_mods : list str := [77 :: ex_alpha].
-Example word_guards_satisfiable :
-  word_guards (env1 ex_var (Some ex_alpha)) ex_var true true ex_alpha.
-Proof.
-  unfold word_guards. split; [right; vm_compute; reflexivity|]. split; [discriminate|discriminate].
-Qed.
 
+(* !empty(V:Malpha) -> ${V} == alpha : true/true for V = alpha, false/false for V = b *)
 Example word_rewrite_example :
   (exists rw f t, simplify_word ex_cx ex_var ex_Malpha_mods true true = [rw] /\
     rw_from_c rw = Some f /\ rw_to_c rw = Some t /\
@@ -354,7 +280,21 @@ Example word_rewrite_undefined_example :
   exists rw f t, simplify_word ex_cx_undef ex_var ex_Malpha_mods false true = [rw] /\
     rw_from_c rw = Some f /\ rw_to_c rw = Some t /\
     eval (env1 ex_var None) f = Some TMalformed /\ eval (env1 ex_var None) t = Some TFalse.
-Proof. try unfold counterexample. apply rewrite_values_sound. vm_compute. reflexivity. Qed.
+Proof. apply rewrite_values_sound. vm_compute. reflexivity. Qed.
+
+(* the repaired cases: no rewrite is offered any more *)
+Example repaired_no_rewrite :
+  simplify_word ex_cx ex_var [[77; 48]] false true = []                         (* ${V:M0}   *)
+  /\ simplify_word ex_cx ex_var [[77; 49; 101; 49]] false true = []            (* ${V:M1e1} *)
+  /\ fst (simplify_yesno ex_cx ex_var [[78; 91; 121; 89; 93]] false true) = [] (* ${V:N[yY]} *)
+  /\ check_and [MDefined ex_var; MNot (MEmpty ex_var [[85; 120]])] = [].       (* defined(V) && !empty(V:Ux) *)
+Proof. vm_compute. repeat split; reflexivity. Qed.
+
+(* ... and !empty(V:M1e1) now gets its quotes: ${V} == "1e1" *)
+Example repaired_quotes :
+  exists rw, simplify_word ex_cx ex_var [[77; 49; 101; 49]] true true = [rw] /\
+             rw_to rw = [36; 123; 86; 125; 32; 61; 61; 32; 34; 49; 101; 49; 34].
+Proof. eexists. vm_compute. split; reflexivity. Qed.
 
 (* ---------- simplifyMatch, with mayMatchNumber's promise stated on single words ---------- *)
 From PV Require Import Proofs.CondSimpWords.
